@@ -57,9 +57,9 @@ class MeasurementTrackingBackend(BaseCircuitRunner):
             circuits: The circuits to execute.
             n_samples: The number of samples to collect for each circuit.
         """
+        measurements = self.inner_backend.run_batch_and_measure(circuits, n_samples)
         self._n_circuits_executed += len(circuits)
         self._n_jobs_executed += 1
-        measurements = self.inner_backend.run_batch_and_measure(circuits, n_samples)
         for circuit, measurement in zip(circuits, measurements):
             self.record_raw_measurement_data(circuit, measurement)
         self.save_raw_data()
